@@ -263,20 +263,33 @@ static void store(Type *ty) {
     println("  mov %%rax, (%%rdi)");
 }
 
+// An unordered comparison (NaN) sets ZF just like "equal" does. Set ZF
+// only if the operands compared equal and ordered, because NaN is not
+// equal to zero and therefore counts as true.
+static void cmp_zero_ordered(void) {
+  println("  sete %%al");
+  println("  setnp %%dl");
+  println("  and %%dl, %%al");
+  println("  xor $1, %%al");
+}
+
 static void cmp_zero(Type *ty) {
   switch (ty->kind) {
   case TY_FLOAT:
     println("  xorps %%xmm1, %%xmm1");
     println("  ucomiss %%xmm1, %%xmm0");
+    cmp_zero_ordered();
     return;
   case TY_DOUBLE:
     println("  xorpd %%xmm1, %%xmm1");
     println("  ucomisd %%xmm1, %%xmm0");
+    cmp_zero_ordered();
     return;
   case TY_LDOUBLE:
     println("  fldz");
     println("  fucomip");
     println("  fstp %%st(0)");
+    cmp_zero_ordered();
     return;
   }
 
